@@ -10,6 +10,7 @@ Per (settings, existence pattern):
 plus, concretely: rows distinct, count (cold counting path) == len(listed), jitted validator == summary on one model per
 path (concolic validation) and == Spec on listed matrices and their +-1 neighbours.
 """
+import os
 import zlib
 import itertools
 import numpy as np
@@ -42,9 +43,97 @@ INSTANCE_CAP_S = 240
 
 def instances(tier, seed):
     out = []
-    for k, s in enumerate(pool.pool(tier, seed, with_max=True)):
+    spool = pool.pool(tier, seed, with_max=True)
+    for k, s in enumerate(spool):
         out.append(dict(label=f'{k:05d} {s.get("name") or ""} {pool.settings_label(s)}', s=s))
+    # two *different* settings enumerated one after the other in the same on-disk cache
+    n_pairs = 0
+    for k, s in enumerate(spool):
+        for what, b in _variants(s):
+            out.append(dict(label=f'cache_pair {k:05d} {what}: {pool.settings_label(s)} | {pool.settings_label(b)}', kind='cache_pair', s=s, b=b, what=what))
+            n_pairs += 1
+        if n_pairs >= (60 if tier == 'quick' else 600):
+            break
     return out
+
+
+def _variants(s):
+    """settings that differ from s in one respect that changes the set of valid matrices for some pattern"""
+    import copy
+    out = []
+    if s.get('mcp') is None:
+        sp = spec_of(s, s['patterns'][0])
+        b = copy.deepcopy(s)
+        b['mcp'] = sp.parallel  # explicit value of what is derived when unset (derived per existence pattern!)
+        out.append(('explicit max_conn_parallel', b))
+    for side in ('src', 'tgt'):
+        b = copy.deepcopy(s)
+        b[side][0]['rep'] = not b[side][0]['rep']
+        out.append((f'{side}0 repeatability flipped', b))
+    if not s['excluded']:
+        b = copy.deepcopy(s)
+        b['excluded'] = [(0, 0)]
+        out.append(('pair (0,0) excluded', b))
+    c0 = s['src'][0]
+    b = copy.deepcopy(s)
+    if c0['conns'] is not None:
+        b['src'][0] = dict(conns=None, min=min(c0['conns']), rep=c0['rep'])
+    else:
+        b['src'][0] = dict(conns=[c0['min'], c0['min']+1], min=None, rep=c0['rep'])
+    out.append(('src0 list <-> open-ended', b))
+    return out
+
+
+def _run_cache_pair(inst):
+    from adsg_core.optimization.assign_enc.matrix import AggregateAssignmentMatrixGenerator
+    a, b = inst['s'], inst['b']
+    res = new_result(inst['label'])
+
+    def listing(s_, cache):
+        st, ex = pool.to_settings(s_)
+        agg = AggregateAssignmentMatrixGenerator(st).get_agg_matrix(cache=cache)
+        return [sorted(np.array(m).tolist() for m in agg[e]) for e in ex]
+    old = os.environ.get('XDG_CACHE_HOME')
+    try:
+        isolate_cache()
+        ref_a, ref_b = listing(a, False), None
+        isolate_cache()
+        ref_b = listing(b, False)
+        for first, second, ref2, names in ((a, b, ref_b, 'A then B'), (b, a, ref_a, 'B then A')):
+            isolate_cache()
+            listing(first, True)
+            got = listing(second, True)
+            res['obligations'] += 1
+            bad = [k for k in range(len(got)) if got[k] != ref2[k]]
+            if bad:
+                res['status'] = VIOLATION
+                k = bad[0]
+                res['violations'].append(violation_record(
+                    PROP, 'cache_pair', dict(kind='listing_depends_on_other_settings_in_cache', what=inst['what'], order=names,
+                                             settings=pool.settings_label(second), pattern=pool.pattern_label(second['patterns'][k])),
+                    dict(first=s_plain(first), second=s_plain(second)), dict(pattern_index=k),
+                    dict(listed_after_other_settings=len(got[k])), dict(listed_in_fresh_cache=len(ref2[k])),
+                    replay_args=dict(kind='cache_pair', first=s_plain(first), second=s_plain(second), k_pat=k)))
+            else:
+                res['discharged'] += 1
+            res['validated'] += 1
+        # the fresh listings themselves are decided against the specification by the main instances; here only a
+        # concrete cross-check that they satisfy it
+        for s_, ref in ((a, ref_a), (b, ref_b)):
+            for k, pat in enumerate(s_['patterns']):
+                sp = spec_of(s_, pat)
+                res['obligations'] += 1
+                if all(sp.holds(m) for m in ref[k]):
+                    res['discharged'] += 1
+                else:
+                    res['status'] = HARNESS_ERROR
+                    res['notes'].append(f'fresh listing violates the specification: {pool.settings_label(s_)} {pool.pattern_label(pat)}')
+    finally:
+        if old is not None:
+            os.environ['XDG_CACHE_HOME'] = old
+    res['paths'] = 2
+    res['sample'] = dict(harness='cache_pair', what=inst['what'])
+    return res
 
 
 def _native_validate(s, k_pat, m):
@@ -90,6 +179,8 @@ def _cause(s, pat, m):
 
 def run_instance(inst, tier='quick', seed=0):
     from adsg_core.optimization.assign_enc.matrix import AggregateAssignmentMatrixGenerator
+    if inst.get('kind') == 'cache_pair':
+        return _run_cache_pair(inst)
     s = inst['s']
     res = new_result(inst['label'])
     ns, nt = len(s['src']), len(s['tgt'])
@@ -283,6 +374,22 @@ def run_instance(inst, tier='quick', seed=0):
             k0 = (len(s['src'])+len(s['tgt'])) % len(s['patterns'])
             g1 = AggregateAssignmentMatrixGenerator(pool.to_settings(s)[0])
             g1.reset_agg_matrix_cache()
+            # an iteration that is abandoned after its first matrix, then a full listing on a new generator
+            st0, ex0 = pool.to_settings(s)
+            g0 = AggregateAssignmentMatrixGenerator(st0)
+            for _m, _e in g0.iter_matrices():
+                break
+            del g0
+            st0, ex0 = pool.to_settings(s)
+            agg0 = AggregateAssignmentMatrixGenerator(st0).get_agg_matrix(cache=False)
+            res['obligations'] += 1
+            bad0 = [k_ for k_ in range(len(exist)) if sorted(m.tolist() for m in agg0[ex0[k_]]) != sorted(m.tolist() for m in agg[exist[k_]])]
+            if bad0:
+                violation('listing_depends_on_query_order', s['patterns'][bad0[0]], bad0[0], None,
+                          dict(after_abandoned_iteration=len(agg0[ex0[bad0[0]]])), dict(listed=len(agg[exist[bad0[0]]])), first_query='abandoned iter_matrices()')
+            else:
+                res['discharged'] += 1
+            g1.reset_agg_matrix_cache()
             st1, ex1 = pool.to_settings(s)
             g1 = AggregateAssignmentMatrixGenerator(st1)
             got0 = sorted(np.array(m).tolist() for mats in [list(g1.iter_matrices(existence=ex1[k0]))] for m, _ in mats)
@@ -316,8 +423,11 @@ def run_instance(inst, tier='quick', seed=0):
 
 
 def s_plain(s):
-    return dict(src=s['src'], tgt=s['tgt'], excluded=[list(e) for e in s['excluded']], mcp=s.get('mcp'),
-                patterns=s['patterns'], name=s.get('name'))
+    d = dict(src=s['src'], tgt=s['tgt'], excluded=[list(e) for e in s['excluded']], mcp=s.get('mcp'),
+             patterns=s['patterns'], name=s.get('name'))
+    if s.get('construct'):
+        d['construct'] = s['construct']
+    return d
 
 
 def replay(rec):
@@ -328,6 +438,29 @@ def replay(rec):
         p['src_override'] = {int(k): v for k, v in p['src_override'].items()}
         p['tgt_override'] = {int(k): v for k, v in p['tgt_override'].items()}
     kind = a['kind']
+    if kind == 'cache_pair':
+        from adsg_core.optimization.assign_enc.matrix import AggregateAssignmentMatrixGenerator
+
+        def fix(s_):
+            s_['excluded'] = [tuple(e) for e in s_['excluded']]
+            for p in s_['patterns']:
+                p['src_override'] = {int(k): v for k, v in p['src_override'].items()}
+                p['tgt_override'] = {int(k): v for k, v in p['tgt_override'].items()}
+            return s_
+
+        def listing(s_, cache):
+            st, ex = pool.to_settings(s_)
+            agg = AggregateAssignmentMatrixGenerator(st).get_agg_matrix(cache=cache)
+            return [sorted(np.array(m).tolist() for m in agg[e]) for e in ex]
+        first, second, k = fix(a['first']), fix(a['second']), a['k_pat']
+        isolate_cache()
+        ref = listing(second, False)
+        isolate_cache()
+        listing(first, True)
+        got = listing(second, True)
+        print(f'second settings {pool.settings_label(second)}, pattern {k}: {len(got[k])} matrices listed after the first settings '
+              f'({pool.settings_label(first)}) were enumerated in the same cache; {len(ref[k])} in a fresh cache')
+        return got[k] != ref[k]
     if kind == 'enumeration_raises':
         try:
             _native_listed(s, 0)
